@@ -25,6 +25,7 @@ import (
 // unusable.
 func escapeTemplate(tmpl *Template, node parse.Node, name string) error {
 	verifHook("escape", name)
+	tmpl.nameSpace.steps = 0
 	c, _ := tmpl.esc.escapeTree(context{}, node, name, 0)
 	var err error
 	if c.err != nil {
@@ -107,8 +108,20 @@ func makeEscaper(n *nameSpace) escaper {
 	}
 }
 
+// maxAnalysisSteps bounds the number of template nodes that the analysis started by one
+// Execute call visits.
+const maxAnalysisSteps = 1000000
+
 // escape escapes a template node.
 func (e *escaper) escape(c context, n parse.Node) context {
+	// The bodies of loops and of recursive templates are analysed twice, which doubles the
+	// work for every level of nesting. Give up on templates that take too long.
+	if e.ns.steps++; e.ns.steps > maxAnalysisSteps {
+		return context{
+			state: stateError,
+			err:   errorf(ErrOutputContext, n, 0, "template is too deeply nested to be analysed: more than %d nodes visited", maxAnalysisSteps),
+		}
+	}
 	switch n := n.(type) {
 	case *parse.ActionNode:
 		return e.escapeAction(c, n)
